@@ -28,7 +28,6 @@ def _unit_interp(e: ast.AST):
     return None
 
 
-@shape_of("struct_rw", "layout", "compiled")
 def unit_switch_rule(repo: Repo, rep: Report, rid: str) -> None:
     rep.rule(rid, "the 'open a new storage unit?' decision agrees across layout calculator, BitBuffer.read, BitBuffer.write and the source "
                   "generator: each is true whenever (unit exhausted or storage type changed); the two BitBuffer guards equal it; the writer "
